@@ -76,4 +76,16 @@ REGISTRY = {
         "level_note": KERNEL_NOTE,
         "technique": "Lean 4 proof (program unfolding; `module` for the Runge-Kutta polynomial)",
     },
+    "C15": {
+        "modules": ["SophtVerif.Props.C15"],
+        "required_theorems": ["C15_kernel_independent", "C15_ghost_is_max_offset", "C15_threads_forwarded",
+                              "C15_schedule_free", "C15_schedule_free_eq_simultaneous", "C15_callsite_noalias_ns2d"],
+        "correspondence": ["corr.cases2d:run_step"],
+        "oracle": "oracles.c15:run",
+        "trusted_base": TB_KERNEL + ["NOT reachable by this technique: real OpenMP execution (back end absent), FFTW plans that depend on the thread count, numba/LLVM fastmath reassociation — bit-level identity across thread counts is not claimed for FFT-based steps (DESIGN C15, finding F6)"],
+        "assumptions": ["a parallel schedule is equivalent to some serial order of the per-cell updates (no torn writes)"],
+        "level_text": "Machine-checked proof (Lean 4), partial at the bit level: (1) every row of the kernel table regenerated from the code satisfies the independence condition (each written field written once and read at the centre only), ghost width = max offset, thread request forwarded or explicitly serial — decide over the whole table; (2) no call of the 2D Navier-Stokes step programs (all 28 configurations) binds a written buffer to an off-centre-read formal — decide; tied to the implementation by the tracer's np.shares_memory record on the arrays actually passed; (3) any serial order of independent per-cell updates equals the simultaneous update (order-independence theorem). Spreading is checked to be serial (no prange/parallel). Real OpenMP/FFTW/fastmath behaviour is outside the model.",
+        "level_note": KERNEL_NOTE + " Bit-identity is proved for stored values in exact arithmetic; FFTW thread-dependent rounding is outside the model.",
+        "technique": "Lean 4 proof (decide over regenerated kernel table + order-independence theorem); trace correspondence of call-site aliasing",
+    },
 }
